@@ -92,6 +92,7 @@ type world struct {
 	fnOverride func(context.Context, string, *fnv1.RunFunctionRequest) (*fnv1.RunFunctionResponse, error)
 	rfail      map[string]bool // PT: templates that cannot be rendered right now
 	upgrading  int             // reconciles the managed-fields upgrade still needs (environment step "legacy")
+	legacyOn   bool            // the composed resources' managed fields are legacy at the start of every reconcile
 	cdw        int             // applied writes to composed resources in this reconcile
 	missed     map[string]bool // composed resources the cache missed in this reconcile
 	ver        int             // the apiVersion the desired resources are written at: ex.org/v<ver>
@@ -386,18 +387,11 @@ func (w *world) env(e replay.Entry) {
 			w.setTemplates()
 		}
 	case "legacy":
+		// while it is on, the composed resources the XR controls carry, at the start of every reconcile, the managed fields a
+		// client-side-apply writer leaves behind (see relegacy)
+		w.legacyOn = !w.legacyOn
 		w.upgrading = 2
-		// every composed resource the XR controls gets the managed fields a client-side-apply writer leaves behind
-		for _, o := range w.s.All(cdGVK.GroupKind()) {
-			if c := metav1.GetControllerOf(o); c == nil || c.UID != w.xrUID {
-				continue
-			}
-			w.s.Mutate(simapi.KeyOf(o), func(u *unstructured.Unstructured) {
-				u.SetManagedFields([]metav1.ManagedFieldsEntry{{Manager: "crossplane", Operation: metav1.ManagedFieldsOperationUpdate,
-					APIVersion: u.GetAPIVersion(), FieldsType: "FieldsV1",
-					FieldsV1: &metav1.FieldsV1{Raw: []byte(`{"f:metadata":{"f:annotations":{".":{},"f:crossplane.io/composition-resource-name":{}},"f:ownerReferences":{}},"f:spec":{".":{},"f:param":{}}}`)}}})
-			})
-		}
+		w.relegacy()
 	case "forge":
 		// the author's desired resources now carry (or no longer carry) a composition-resource-name annotation that
 		// names ANOTHER resource (YAML pasted from a live composed resource, a body built by copying another one):
@@ -423,6 +417,20 @@ func (w *world) env(e replay.Entry) {
 		panic("unknown env step " + e.K)
 	}
 	w.emit("env", map[string]any{"verb": e.K, "target": orNone(e.O)})
+}
+
+// relegacy gives every composed resource the XR controls the managed fields a client-side-apply writer leaves behind.
+func (w *world) relegacy() {
+	for _, o := range w.s.All(cdGVK.GroupKind()) {
+		if c := metav1.GetControllerOf(o); c == nil || c.UID != w.xrUID {
+			continue
+		}
+		w.s.Mutate(simapi.KeyOf(o), func(u *unstructured.Unstructured) {
+			u.SetManagedFields([]metav1.ManagedFieldsEntry{{Manager: "crossplane", Operation: metav1.ManagedFieldsOperationUpdate,
+				APIVersion: u.GetAPIVersion(), FieldsType: "FieldsV1",
+				FieldsV1: &metav1.FieldsV1{Raw: []byte(`{"f:metadata":{"f:annotations":{".":{},"f:crossplane.io/composition-resource-name":{}},"f:ownerReferences":{}},"f:spec":{".":{},"f:param":{}}}`)}}})
+		})
+	}
 }
 
 func orNone(s string) string {
@@ -639,6 +647,10 @@ type sweep struct {
 
 func (w *world) reconcile(al *replay.Aligner, sw *sweep) int {
 	w.recNo++
+	if w.legacyOn {
+		w.relegacy()
+		w.upgrading = 2
+	}
 	setCurrent(w)
 	al.Virtual = func(e replay.Entry) bool { return w.mode == "PT" && e.K == "desire" }
 	al.Ignore = func(abs string) bool { return strings.HasPrefix(abs, "pre:") }
